@@ -493,6 +493,17 @@ func (qi *QuotaInfo) addPodIfNotPresent(pod *v1.Pod) {
 	qi.PodCache[key] = NewPodInfo(pod)
 }
 
+// updatePodIfPresent replaces the cached pod object, so that readers of the PodCache (e.g. pod migration between
+// quotas) see the pod whose request is currently counted.
+func (qi *QuotaInfo) updatePodIfPresent(pod *v1.Pod) {
+	qi.lock.Lock()
+	defer qi.lock.Unlock()
+
+	if podInfo, exist := qi.PodCache[generatePodCacheKey(pod)]; exist {
+		podInfo.pod = pod
+	}
+}
+
 func (qi *QuotaInfo) removePodIfPresent(pod *v1.Pod) {
 	qi.lock.Lock()
 	defer qi.lock.Unlock()
